@@ -52,28 +52,28 @@ static void ob_icdf(H<T>& h)
     for (std::size_t i = 0; i != d; ++i)
     {
         std::string s = "[dim" + std::to_string(i) + "]";
-        h.check("icdf.bin_below_bins" + s, h.truth(bin[i] < B));
+        h.check("C01,C07,C17|icdf.bin_below_bins" + s, h.truth(bin[i] < B));
         if (bin[i] >= B) return;
         T const left = pdf.bin_left(i, bin[i]);
         T const right = pdf.bin_left(i, bin[i] + 1);
-        h.check("icdf.point_inside_reported_bin" + s, h.le(left, x[i]) && h.le(x[i], right));
-        h.check("icdf.point_in_unit_interval" + s, h.le(T(0.0), x[i]) && h.le(x[i], T(1.0)));
+        h.check("C01,C07,C17|icdf.point_inside_reported_bin" + s, h.le(left, x[i]) && h.le(x[i], right));
+        h.check("C01,C07,C17|icdf.point_in_unit_interval" + s, h.le(T(0.0), x[i]) && h.le(x[i], T(1.0)));
         if (!closed || !sym::isfinite(u[i]) || true)
         {
             // bin is the one containing u: bin/B <= u < (bin+1)/B   (u == 1 is nudged below 1)
-            h.check("icdf.bin_is_floor_u_times_bins" + s,
+            h.check("C01,C07,C17|icdf.bin_is_floor_u_times_bins" + s,
                 h.le(T(bin[i]) / T(B), u[i]) && (h.lt(u[i], T(bin[i] + 1) / T(B)) || h.eq(u[i], T(1.0))));
         }
         if (!closed)
         {
             // affine inverse CDF: x = left + (u*B - bin) * (right - left)
-            h.check("icdf.affine_inverse_cdf" + s,
+            h.check("C01,C07,C17|icdf.affine_inverse_cdf" + s,
                 h.eq(x[i], left + (u[i] * T(B) - T(bin[i])) * (right - left)));
         }
         expected_weight = expected_weight * (T(B) * (right - left));
     }
-    h.check("icdf.weight_is_product_of_bins_times_width", h.eq(weight, expected_weight));
-    h.check("icdf.point_coordinates_are_what_the_integrand_sees", h.truth(&point.point() == &x));
+    h.check("C01,C07,C17|icdf.weight_is_product_of_bins_times_width", h.eq(weight, expected_weight));
+    h.check("C01,C07,C17|icdf.point_coordinates_are_what_the_integrand_sees", h.truth(&point.point() == &x));
 }
 
 // reference: smoothed, damped importance per bin, as documented (Lepage / CUBA refine_grid)
@@ -125,19 +125,19 @@ static void ob_refine(H<T>& h)
 
     hep::vegas_pdf<T> const np = hep::vegas_refine_pdf(pdf, alpha, data);
 
-    h.check("refine.shape_kept", h.truth(np.bins() == B && np.dimensions() == d));
+    h.check("C07|refine.shape_kept", h.truth(np.bins() == B && np.dimensions() == d));
     for (std::size_t i = 0; i != d; ++i)
     {
         std::string s = "[dim" + std::to_string(i) + "]";
         bool all_finite = true;
         for (std::size_t b = 0; b <= B; ++b) all_finite = all_finite && sym::isfinite(np.bin_left(i, b));
-        h.check("refine.boundaries_finite" + s, h.truth(all_finite));
+        h.check("C07|refine.boundaries_finite" + s, h.truth(all_finite));
         if (!all_finite) continue;
-        h.check("refine.starts_at_zero" + s, h.eq(np.bin_left(i, 0), T(0.0)));
-        h.check("refine.ends_at_one" + s, h.eq(np.bin_left(i, B), T(1.0)));
+        h.check("C07|refine.starts_at_zero" + s, h.eq(np.bin_left(i, 0), T(0.0)));
+        h.check("C07|refine.ends_at_one" + s, h.eq(np.bin_left(i, B), T(1.0)));
         auto mono = h.truth(true);
         for (std::size_t b = 0; b != B; ++b) mono = mono && h.le(np.bin_left(i, b), np.bin_left(i, b + 1));
-        h.check("refine.non_decreasing" + s, mono);
+        h.check("C07|refine.non_decreasing" + s, mono);
 
         std::vector<T> di(data.begin() + i * B, data.begin() + (i + 1) * B), m;
         T avg;
@@ -146,7 +146,7 @@ static void ob_refine(H<T>& h)
         {
             auto keep = h.truth(true);
             for (std::size_t b = 0; b <= B; ++b) keep = keep && h.eq(np.bin_left(i, b), pdf.bin_left(i, b));
-            h.check("refine.zero_data_leaves_grid_unchanged" + s, keep);
+            h.check("C07|refine.zero_data_leaves_grid_unchanged" + s, keep);
             continue;
         }
         // equal share: cumulative importance over the OLD grid, evaluated at each new boundary,
@@ -167,7 +167,7 @@ static void ob_refine(H<T>& h)
                 }
                 cum += m[k];
             }
-            h.check("refine.equal_share_of_importance" + s, h.truth(done) && h.eq(F, T(n) * avg));
+            h.check("C07|refine.equal_share_of_importance" + s, h.truth(done) && h.eq(F, T(n) * avg));
         }
     }
 }
